@@ -440,8 +440,7 @@ def _class_messages(run, te, cd, plan, rng, valid_msgs):
 
 def shrink(plan, still_fails, budget):
     from .. import core
-    env = core._ENV
-    res = core.run_one(__import__("sim.checks.c03_hostile", fromlist=["x"]), plan, env)
+    res = core.probe(plan)
     if res.violation is None or "case" not in res.violation:
         return plan
     case = res.violation["case"]
